@@ -288,6 +288,15 @@ func (st *State) modularCall(fr *Frame, in ssa.Instruction, fn *ssa.Function, c 
 	for i, p := range fn.Params {
 		vars[p.Name()] = args[i]
 	}
+	if cc := e.contracts[e.curFn]; cc != nil {
+		for _, r := range cc.OnCalls {
+			if r.Type == fn.Name() {
+				csc := st.specCtx(fr, "oncall "+r.Type)
+				csc.old = st.frames[0].old
+				st.oblige("callsite", r.Clause.Label, r.Clause.Props, e.evalClause(csc, r.Clause), pos)
+			}
+		}
+	}
 	pre := st.snapshot()
 	sc := &SpecCtx{st: st, vars: vars, old: pre, where: "call of " + name, fn: name}
 	st.evalLets(sc, c)
